@@ -132,7 +132,13 @@ Definition proposal_corr (max split : Z) (entries obs_meta : list Z) : bool :=
   zlist_eqb (metadata_section max split entries) obs_meta.
 Definition mon_proposal (max total : Z) : bool := total <=? max.
 
+(* ------------------------------------------------------------------ one parameter field *)
+(* a value offered for one field of a custom module's Params (all other fields valid) to the real
+   Params.Validate / MsgUpdateParams: accepted exactly when the model's domain contains it *)
+Definition field_corr (kind : Z) (v : option Z) (accepted : bool) : bool := Bool.eqb (field_ok kind v) accepted.
+
 Inductive c01_case :=
+| CField (kind : Z) (v : option Z) (accepted : bool)
 | CProposal (max split : Z) (entries obs_meta : list Z) (total : Z)
 | CBlock (b : block_in) (o : block_obs)
 | CPool (fee ratio offs : Z) (accepted : bool)
@@ -141,6 +147,7 @@ Inductive c01_case :=
 
 Definition c01_check_gen (validated guard : bool) (c : c01_case) : list Z :=
   match c with
+  | CField kind v acc => flag 0 (field_corr kind v acc)
   | CProposal max split entries obs_meta total =>
       flag 0 (proposal_corr max split entries obs_meta) ++ flag 3 (mon_proposal max total)
   | CBlock b o => flag 0 (block_corr b o) ++ flag 1 (mon_block o) ++ flag 101 (negb (trig_sc_short b))
